@@ -79,21 +79,27 @@ func decTrace(in []int64) traceIn {
 }
 
 type placementGroup struct {
+	newBinds int     // pods of the group bound by this action
+	quick    []int64 // nodes of pods of the group that went through the nomination quick path
+	rest     []int64 // placements of the group without those pods
+	sigD11   bool    // recorded holds every placement within the limit but a lower HyperNode does too
 	sub      bool
 	limit    int64
 	recorded int64
 	nodes    []int64
 }
 type traceOut struct {
-	notReady bool
-	newBinds int64 // tasks that were pending in the input and are in an allocated status afterwards
-	anyHard  bool
-	hnMap    []int64
-	real     []int64
-	groups   []placementGroup
-	desc     string
-	sig      string
-	sigRec   string
+	unknownName      bool
+	unknownNameBinds int64
+	notReady         bool
+	newBinds         int64 // tasks that were pending in the input and are in an allocated status afterwards
+	anyHard          bool
+	hnMap            []int64
+	real             []int64
+	groups           []placementGroup
+	desc             string
+	sig              string
+	sigRec           string
 }
 
 var lastTrace *traceOut
@@ -214,11 +220,15 @@ func runTrace(in []int64) []int64 {
 	placed := 0
 	inputPlaced := map[string]bool{}
 	inputStatus := map[string]int64{}
+	inputNom := map[string]int64{}
+	inputRole := map[string]int64{}
 	for i, p := range t.pods {
 		lbl := map[string]string{"volcano.sh/task-spec": fmt.Sprintf("role%d", p.role)}
 		name := fmt.Sprintf("p%d", i+1)
 		req := api.BuildResourceList("2", "4G")
 		inputStatus[name] = p.running
+		inputNom[name] = p.node
+		inputRole[name] = p.role
 		switch p.running {
 		case 0:
 			pod := util.BuildPod("c1", name, "", v1.PodPending, req, "pg1", lbl, nil)
@@ -303,6 +313,16 @@ func runTrace(in []int64) []int64 {
 		}
 	}
 
+	if t.annot != 0 {
+		// a scheduler that has been running keeps the job's AllocatedHyperNode in its cache
+		// (cache.go:1741); put it there so that the session-open code reads it
+		// (removeInvalidAllocatedHyperNode, the gates of recoverAllocatedHyperNode).
+		// annot may also name a HyperNode that does not exist (any more).
+		for _, job := range sc.Jobs {
+			job.AllocatedHyperNode = hnName(t.annot)
+		}
+	}
+
 	yes := true
 	framework.RegisterPluginBuilder(predicates.PluginName, predicates.New)
 	framework.RegisterPluginBuilder(gang.PluginName, gang.New)
@@ -369,15 +389,6 @@ func runTrace(in []int64) []int64 {
 		obs = append(obs, l.role, l.hard, l.limit)
 	}
 
-	if t.annot != 0 {
-		// a scheduler that has been running keeps the job's AllocatedHyperNode in its cache
-		// (cache.go:1741); annot = 0 is the restart case, where it is recovered from the pods
-		for _, job := range ssn.Jobs {
-			if job.AllocatedHyperNode == "" {
-				job.AllocatedHyperNode = hnName(t.annot)
-			}
-		}
-	}
 	if t.pin != 0 {
 		// gangpreempt / gangreclaim pin a sub-job to a HyperNode (NominatedHyperNode) and its pending
 		// pods to nodes of it; allocate then takes the quick path allocateFromNomination
@@ -415,6 +426,71 @@ func runTrace(in []int64) []int64 {
 		sort.Slice(ns, func(i, j int) bool { return ns[i] < ns[j] })
 		return ns
 	}
+	bound := func(task *api.TaskInfo) bool {
+		return task.NodeName != "" && (task.Status == api.Binding || task.Status == api.Bound || task.Status == api.Running)
+	}
+	pinnedPod := func(name string) bool {
+		return t.pin != 0 && inputStatus[name] == 0 && (t.policy == 0 || inputRole[name] == 1)
+	}
+	// evidence of the nomination quick path: a pending pod of the pinned sub-job was bound on the
+	// node it was nominated to (inside the pinned leaf), and none of them was bound anywhere else
+	quickRan := t.pin != 0
+	onNominated := func(task *api.TaskInfo) bool {
+		return pinnedPod(task.Name) && bound(task) && nodeID(task.NodeName) == inputNom[task.Name]
+	}
+	nQuick := 0
+	for _, job := range ssn.Jobs {
+		for _, task := range job.Tasks {
+			if pinnedPod(task.Name) && bound(task) {
+				if onNominated(task) {
+					nQuick++
+				} else {
+					quickRan = false
+				}
+			}
+		}
+	}
+	quickRan = quickRan && nQuick > 0
+	coversAll := func(hn string, ns []int64) bool {
+		set, ok := ssn.RealNodesSet[hn]
+		if !ok {
+			return false
+		}
+		for _, n := range ns {
+			if !set.Has(nodeName(n)) {
+				return false
+			}
+		}
+		return true
+	}
+	mkGroup := func(sub bool, limit int64, recorded string, tasks map[api.TaskID]*api.TaskInfo) placementGroup {
+		g := placementGroup{sub: sub, limit: limit, recorded: hnID(recorded), nodes: placedOf(tasks)}
+		for _, task := range tasks {
+			if inputStatus[task.Name] == 0 && bound(task) {
+				g.newBinds++
+			}
+			placed := task.NodeName != "" && api.AllocatedStatus(task.Status) && (task.Status != api.Allocated || inputPlaced[task.Name])
+			if !placed {
+				continue
+			}
+			if quickRan && onNominated(task) {
+				g.quick = append(g.quick, nodeID(task.NodeName))
+			} else {
+				g.rest = append(g.rest, nodeID(task.NodeName))
+			}
+		}
+		sort.Slice(g.rest, func(i, j int) bool { return g.rest[i] < g.rest[j] })
+		// D11 mechanism: the record holds every placement within the limit, yet a HyperNode of a
+		// lower tier holds them too (a domain wider than the placements was chosen and recorded)
+		if rec, ok := ssn.HyperNodes[recorded]; ok && len(g.nodes) > 0 && int64(rec.Tier()) <= limit && coversAll(recorded, g.nodes) {
+			for name, hn := range ssn.HyperNodes {
+				if hn.Tier() < rec.Tier() && coversAll(name, g.nodes) {
+					g.sigD11 = true
+				}
+			}
+		}
+		return g
+	}
 	desc := ""
 	out.notReady = t.notReady != 0
 	for _, job := range ssn.Jobs {
@@ -429,7 +505,7 @@ func runTrace(in []int64) []int64 {
 			}
 		}
 		if t.policy != 3 && t.jobName != 2 {
-			out.groups = append(out.groups, placementGroup{false, t.limit, hnID(job.AllocatedHyperNode), placedOf(job.Tasks)})
+			out.groups = append(out.groups, mkGroup(false, t.limit, job.AllocatedHyperNode, job.Tasks))
 		}
 		names := []string{}
 		for _, task := range job.Tasks {
@@ -452,7 +528,7 @@ func runTrace(in []int64) []int64 {
 				hard, limit = t.subName != 2, int(t.subLimit)
 			}
 			if hard {
-				out.groups = append(out.groups, placementGroup{true, int64(limit), hnID(sj.AllocatedHyperNode), placedOf(sj.Tasks)})
+				out.groups = append(out.groups, mkGroup(true, int64(limit), sj.AllocatedHyperNode, sj.Tasks))
 			}
 		}
 	}
@@ -460,20 +536,24 @@ func runTrace(in []int64) []int64 {
 	// findings D8 (recovery skipped sub-jobs without own topology) and D10 (stale recorder
 	// decisions) are repaired in /repo: their classes carry no signature any more
 	_ = placed
-	if t.pin != 0 {
-		// finding D12: allocateFromNomination places a pinned sub-job without checking the
-		// nominated HyperNode against the job-level candidate / the prior allocation / the tier limit
-		out.sig = "C14-D12-nomination-quick-path-ignores-topology"
-	}
-	if !out.notReady && out.newBinds > 0 {
-		for _, job := range ssn.Jobs {
-			if hard, _ := job.IsHardTopologyMode(); hard && job.AllocatedHyperNode == "" && ssn.JobReady(job) {
-				panic("pods of a hard-topology job were bound but no AllocatedHyperNode is recorded")
+	// a hard limit given by a tier name that no HyperNode carries (finding D13): the pods of that
+	// job / sub-group must not be scheduled as if there were no constraint
+	for _, job := range ssn.Jobs {
+		for _, task := range job.Tasks {
+			if inputStatus[task.Name] == 0 && bound(task) {
+				if (t.policy != 3 && t.jobName == 2) || (t.policy >= 2 && t.subName == 2) {
+					out.unknownNameBinds++
+				}
 			}
 		}
 	}
-	if os.Getenv("VERIF_C14_DEBUG") != "" {
-		fmt.Fprintln(os.Stderr, "TRACE", desc, out.groups)
+	out.unknownName = (t.policy != 3 && t.jobName == 2) || (t.policy >= 2 && t.subName == 2)
+	if !out.notReady {
+		for _, g := range out.groups {
+			if g.newBinds > 0 && g.recorded == 0 {
+				panic("pods of a hard-topology job / sub-job were bound but no AllocatedHyperNode is recorded for it")
+			}
+		}
 	}
 	lastTrace = out
 	return obs
@@ -487,15 +567,38 @@ func traceLaws(law func(lsel int, lin []int64, sig string)) {
 	if o.anyHard {
 		law(110, []int64{vh.B(o.notReady), o.newBinds}, "")
 	}
-	for _, g := range o.groups {
+	if o.unknownName {
+		sig := ""
+		if o.unknownNameBinds > 0 {
+			sig = "C14-D13-hard-limit-by-unknown-tier-name-is-ignored"
+		}
+		law(114, []int64{1, o.unknownNameBinds}, sig)
+	}
+	mk := func(g placementGroup, nodes []int64) []int64 {
 		lin := append(append([]int64{}, o.hnMap...), o.real...)
-		lin = append(lin, g.limit, g.recorded, int64(len(g.nodes)))
-		lin = append(lin, g.nodes...)
-		law(108, lin, o.sig)
-		law(109, lin, o.sig)
-		// the property text's exact reading; the code records the LCA of the chosen domains (D11)
-		sig113 := o.sig
-		if sig113 == "" {
+		lin = append(lin, g.limit, g.recorded, int64(len(nodes)))
+		return append(lin, nodes...)
+	}
+	for _, g := range o.groups {
+		lin := mk(g, g.nodes)
+		// D12 only explains a failure when the nomination quick path placed pods of this group:
+		// the same group WITHOUT those pods must satisfy the laws unsigned
+		sig := ""
+		if len(g.quick) > 0 {
+			sig = "C14-D12-nomination-quick-path-ignores-topology"
+			law(108, mk(g, g.rest), "")
+		}
+		law(108, lin, sig)
+		if o.notReady {
+			// session open neither validates nor recovers the record on a view that is not ready
+			// and nothing is scheduled with it: the record is not judged
+			continue
+		}
+		law(109, lin, sig)
+		// the property text's exact reading; D11 only when the record is a wider domain that
+		// still holds every placement within the limit
+		sig113 := sig
+		if sig113 == "" && g.sigD11 {
 			sig113 = "C14-D11-recorded-allocated-hypernode-is-lca-of-chosen-domains-not-of-placements"
 		}
 		law(113, lin, sig113)
@@ -544,6 +647,8 @@ func genTrace(r *vh.Rng) (in []int64, nontrivial bool, desc any) {
 	annot := int64(0)
 	if nPlaced > 0 && r.Chance(1, 3) {
 		annot = int64(runLeaf + 1)
+	} else if r.Chance(1, 10) {
+		annot = vh.Pick(r, []int64{int64(r.Range(1, L)), 77}) // remembered without placed pods, or a HyperNode that is gone
 	}
 	notReady := int64(0)
 	if r.Chance(1, 6) {
